@@ -347,6 +347,9 @@ inline std::string build_gkf(const Plan& plan, int* n_steps = nullptr, std::stri
     if (s.op == "kp") {
       close_obs();
       int i = (int)(s.arg(0) % 8); KPt p = gkf_point(i); long long st = s.arg(1) % 7, c = s.arg(2) % 4;
+      // (coords 4..7 as 0..3 with the point far away: coordinates of 1e10 or 1e26 metres, numbers that need 12 or 28
+      //  digits in fixed notation)
+      if ((s.arg(2) / 4) % 4 == 1) { double f = (s.arg(2) / 16) % 2 ? 1e23 : 1e7; p.x *= f; p.y *= f; p.z *= f; }
       d += std::string("<point id=\"") + ID[i] + "\"";
       if (c == 0 || c == 2) d += " x=\"" + num(p.x, 3) + "\" y=\"" + num(p.y, 3) + "\"";
       if (c == 0 || c == 3) d += " z=\"" + num(p.z, 3) + "\"";
